@@ -904,8 +904,9 @@ fn bed_strand_ch(s: Option<bed::feature::record::Strand>) -> String {
     .into()
 }
 
-/// (written bytes, lazy canonical, owned canonical, records read)
-type BedOut = io::Result<(Vec<u8>, String, String, usize)>;
+/// (written bytes, per line (lazy canonical, owned canonical) read into one reused Record, the same
+/// read into fresh Records)
+type BedOut = io::Result<(Vec<u8>, Vec<(String, String)>, Vec<(String, String)>)>;
 
 fn join_others<'a>(it: impl Iterator<Item = &'a [u8]>) -> String {
     let v: Vec<String> = it.map(hex).collect();
@@ -926,64 +927,68 @@ fn owned_others(o: &bed::feature::record_buf::OtherFields) -> String {
 }
 
 macro_rules! bed_roundtrip {
-    ($n:literal, $r:expr, $set:expr, $lazy:expr, $owned:expr) => {{
-        let r: &BedRec = $r;
-        let mut b = bed::feature::RecordBuf::<$n>::builder()
-            .set_reference_sequence_name(BString::from(r.name.clone()))
-            .set_feature_start(pos(r.start));
-        if let Some(e) = r.end {
-            b = b.set_feature_end(pos(e));
-        }
-        #[allow(clippy::redundant_closure_call)]
-        let b = ($set)(b, r);
-        let rec = b.set_other_fields(other_values(r)).build();
+    ($n:literal, $rs:expr, $set:expr, $lazy:expr, $owned:expr) => {{
+        let rs: &[BedRec] = $rs;
         (|| -> BedOut {
             let mut w = bed::io::Writer::<$n, _>::new(Vec::new());
-            w.write_feature_record(&rec)?;
+            for r in rs {
+                let mut b = bed::feature::RecordBuf::<$n>::builder()
+                    .set_reference_sequence_name(BString::from(r.name.clone()))
+                    .set_feature_start(pos(r.start));
+                if let Some(e) = r.end {
+                    b = b.set_feature_end(pos(e));
+                }
+                #[allow(clippy::redundant_closure_call)]
+                let b = ($set)(b, r);
+                let rec = b.set_other_fields(other_values(r)).build();
+                w.write_feature_record(&rec)?;
+            }
             let bytes = w.into_inner();
-            let mut reader = bed::io::Reader::<$n, _>::new(&bytes[..]);
-            let mut lazy_rec = bed::Record::<$n>::default();
-            let mut count = 0;
-            let mut lazy = String::from("NoLine");
-            let mut owned = String::from("NoLine");
-            loop {
-                let mut cur = bed::Record::<$n>::default();
-                match reader.read_record(&mut cur) {
-                    Ok(0) => break,
-                    Ok(_) => {
-                        if count == 0 {
-                            lazy_rec = cur;
-                        }
-                        count += 1;
+            // every line of the file, read into ONE reused Record (reuse = true) or into a fresh one
+            let read = |reuse: bool| -> Vec<(String, String)> {
+                let mut reader = bed::io::Reader::<$n, _>::new(&bytes[..]);
+                let mut rec = bed::Record::<$n>::default();
+                let mut out: Vec<(String, String)> = Vec::new();
+                loop {
+                    if !reuse {
+                        rec = bed::Record::<$n>::default();
                     }
-                    Err(e) => {
-                        if count == 0 {
-                            lazy = format!("Err:{}", errkind(&e));
-                            owned = lazy.clone();
+                    match reader.read_record(&mut rec) {
+                        Ok(0) => break,
+                        Ok(_) => {
+                            #[allow(clippy::redundant_closure_call)]
+                            let lazy = match guarded(AssertUnwindSafe(|| ($lazy)(&rec))) {
+                                Outcome::Done(s) => s,
+                                Outcome::Panicked(_) => "Panic".to_string(),
+                            };
+                            let owned = match guarded(AssertUnwindSafe(|| {
+                                bed::feature::RecordBuf::<$n>::try_from_feature_record(&rec)
+                            })) {
+                                Outcome::Done(Ok(buf)) => {
+                                    #[allow(clippy::redundant_closure_call)]
+                                    let s: String = ($owned)(&buf);
+                                    s
+                                }
+                                Outcome::Done(Err(e)) => format!("Err:{}", errkind(&e)),
+                                Outcome::Panicked(_) => "Panic".to_string(),
+                            };
+                            out.push((lazy, owned));
                         }
-                        count += 1;
+                        Err(e) => {
+                            let s = format!("Err:{}", errkind(&e));
+                            out.push((s.clone(), s));
+                            break;
+                        }
+                    }
+                    if out.len() > rs.len() + 4 {
                         break;
                     }
                 }
-                if count > 4 {
-                    break;
-                }
-            }
-            if lazy == "NoLine" && count > 0 {
-                #[allow(clippy::redundant_closure_call)]
-                {
-                    lazy = ($lazy)(&lazy_rec);
-                }
-                owned = match bed::feature::RecordBuf::<$n>::try_from_feature_record(&lazy_rec) {
-                    Ok(buf) => {
-                        #[allow(clippy::redundant_closure_call)]
-                        let s: String = ($owned)(&buf);
-                        s
-                    }
-                    Err(e) => format!("Err:{}", errkind(&e)),
-                };
-            }
-            Ok((bytes, lazy, owned, count))
+                out
+            };
+            let reused = read(true);
+            let fresh = read(false);
+            Ok((bytes, reused, fresh))
         })()
     }};
 }
@@ -995,8 +1000,8 @@ fn opt_pos(p: Option<io::Result<Position>>) -> String {
     }
 }
 
-fn bed_io(r: &BedRec) -> BedOut {
-    match r.n {
+fn bed_io(r: &[BedRec]) -> BedOut {
+    match r[0].n {
         3 => bed_roundtrip!(
             3,
             r,
@@ -1123,15 +1128,79 @@ fn bed_writer_accepts(r: &BedRec) -> bool {
         })
 }
 
+/// expected canonical text; name "." is the BED spelling of a missing name (documented aliasing)
+fn bed_want(r: &BedRec) -> String {
+    let nm = match (&r.nm, r.n >= 4) {
+        (Some(n), true) if n != b"." => hex(n),
+        _ => "-".into(),
+    };
+    format!(
+        "{}|{}|{}|{}|{}|{}|{}",
+        hex(&r.name),
+        r.start,
+        r.end.map(|e| e.to_string()).unwrap_or(".".into()),
+        nm,
+        if r.n >= 5 { r.score } else { 0 },
+        if r.n >= 6 { r.strand } else { '.' },
+        join_others(other_texts(r).iter().map(|v| &v[..]))
+    )
+}
+
+/// A multi-line BED file with mixed column counts, read line by line into ONE reused Record<N>
+/// and into fresh ones: every lazy accessor and the owned conversion, per line.
+fn run_bedfile(c: &Case) -> Obs {
+    let n = c.u(0) as usize;
+    let rs: Vec<BedRec> = c.args[1..]
+        .iter()
+        .map(|a| {
+            let mut args = vec![n.to_string()];
+            args.extend(a.split(' ').map(|x| x.to_string()));
+            bed_of_case(&Case::new("x", "bed", args))
+        })
+        .collect();
+    let rs2 = rs.clone();
+    let out = match guarded(AssertUnwindSafe(move || bed_io(&rs2))) {
+        Outcome::Panicked(m) => return Obs::fail("-", "bed-panic", m),
+        Outcome::Done(x) => x,
+    };
+    let (bytes, reused, fresh) = match out {
+        Err(e) => return Obs::fail("-", "bed-writer-rejects-valid-record", errkind(&e)),
+        Ok(x) => x,
+    };
+    let want: Vec<String> = rs.iter().map(bed_want).collect();
+    let o = Obs::ok("-", true);
+    let check = |got: &[(String, String)]| -> Option<String> {
+        if got.len() != want.len() {
+            return Some(format!("{} lines read, {} written", got.len(), want.len()));
+        }
+        for (i, ((lazy, owned), w)) in got.iter().zip(&want).enumerate() {
+            if lazy != w {
+                return Some(format!("line {i}: lazy want={w} got={lazy}"));
+            }
+            if owned != w {
+                return Some(format!("line {i}: owned want={w} got={owned}"));
+            }
+        }
+        None
+    };
+    let pf = check(&fresh);
+    let pr = check(&reused);
+    match (pf, pr) {
+        (None, None) => o,
+        (None, Some(d)) => o.with_verdict(Err(("bed-reused-record-stale-fields".into(), format!("{d} file={}", hex(&bytes))))),
+        (Some(d), _) => o.with_verdict(Err(("bed-file-roundtrip".into(), format!("{d} file={}", hex(&bytes))))),
+    }
+}
+
 fn run_bed(c: &Case, modelled: bool) -> Obs {
     let r = bed_of_case(c);
     let nontrivial = r.n > 3 || !r.others.is_empty();
     let r2 = r.clone();
-    let out = match guarded(AssertUnwindSafe(move || bed_io(&r2))) {
+    let out = match guarded(AssertUnwindSafe(move || bed_io(std::slice::from_ref(&r2)))) {
         Outcome::Panicked(m) => return Obs::fail(if modelled { "W=Panic" } else { "-" }, "bed-panic", m),
         Outcome::Done(x) => x,
     };
-    let (bytes, lazy, owned, count) = match out {
+    let (bytes, reused, fresh) = match out {
         Err(e) => {
             let obs = if modelled { format!("W=Err:{}", errkind(&e)) } else { "-".into() };
             return if !bed_writer_accepts(&r) && e.kind() == io::ErrorKind::InvalidInput {
@@ -1142,33 +1211,24 @@ fn run_bed(c: &Case, modelled: bool) -> Obs {
         }
         Ok(x) => x,
     };
+    let count = fresh.len();
+    let (lazy, owned) = fresh.first().cloned().unwrap_or(("NoLine".into(), "NoLine".into()));
     let line = &bytes[..bytes.len() - 1];
     let obs = if modelled { format!("W={}|R={}", hex(line), lazy) } else { "-".into() };
     let o = Obs { obs, verdict: "ok".into(), nontrivial };
     if !bed_writer_accepts(&r) {
         return o.with_verdict(Err(("bed-writer-accepts-invalid-field".into(), hex(line))));
     }
-    // expected canonical text; name "." is the BED spelling of a missing name (documented aliasing)
-    let nm = match (&r.nm, r.n >= 4) {
-        (Some(n), true) if n != b"." => hex(n),
-        _ => "-".into(),
-    };
-    let want = format!(
-        "{}|{}|{}|{}|{}|{}|{}",
-        hex(&r.name),
-        r.start,
-        r.end.map(|e| e.to_string()).unwrap_or(".".into()),
-        nm,
-        if r.n >= 5 { r.score } else { 0 },
-        if r.n >= 6 { r.strand } else { '.' },
-        join_others(other_texts(&r).iter().map(|v| &v[..]))
-    );
+    let want = bed_want(&r);
     let mut problems = Vec::new();
     if count != 1 {
         problems.push(format!("records:{count}"));
     }
     if lazy != want {
         problems.push(format!("lazy: want={want} got={lazy}"));
+    }
+    if reused != fresh {
+        return o.with_verdict(Err(("bed-reused-record-stale-fields".into(), format!("reused={reused:?} fresh={fresh:?}"))));
     }
     if owned != lazy {
         return o.with_verdict(Err(("bed-lazy-differs-from-owned".into(), format!("lazy={lazy} owned={owned}"))));
